@@ -219,6 +219,7 @@ def rules_selection(run):
             return None
         return classify
     FOUND = None
+    OUT = None      # form C: the atom that stands for "the class selected something" after the priority loop
     for ap in sel_app[:1]:
         if ap.func.attr == 'append':
             # ---- form A
@@ -260,6 +261,29 @@ def rules_selection(run):
                 if len(defs) == 1 and isinstance(strip_cast(defs[0][1]), ast.ListComp) and q.in_block(defs[0][0], L_pr.body) and q.dominates(F, defs[0][0], ap):
                     comp = strip_cast(defs[0][1])
                     ev_name = a0.id
+                elif len(defs) > 1:
+                    # ---- form C: the class result leaves the priority loop through a variable:
+                    #   for .. in classes: enabled = [..]; if enabled: res = enabled; break      else: res = []      if res: selected.extend(res)
+                    empt = [d for d in defs if isinstance(strip_cast(d[1]), ast.List) and not strip_cast(d[1]).elts]
+                    alias = [d for d in defs if isinstance(strip_cast(d[1]), ast.Name)]
+                    if len(alias) == 1 and empt and len(empt) + 1 == len(defs):
+                        cv = strip_cast(alias[0][1]).id
+                        cdefs = [(st, v) for st, v in q.assigned_value(F, cv)]
+                        sta = alias[0][0]
+                        par = getattr(sta, '_parent', None)
+                        blk_ = [b for b in (getattr(par, 'body', []), getattr(par, 'orelse', [])) if isinstance(b, list) and sta in b]
+                        nxt = blk_[0][blk_[0].index(sta) + 1] if blk_ and blk_[0].index(sta) + 1 < len(blk_[0]) else None
+                        okc_ = len(cdefs) == 1 and isinstance(strip_cast(cdefs[0][1]), ast.ListComp) and q.in_block(cdefs[0][0], L_pr.body) \
+                            and q.in_block(sta, L_pr.body) and guard_atoms(sta, stop=L_pr) == [('truthy', cv, '')] \
+                            and isinstance(nxt, ast.Break) and q.enclosing(nxt, (ast.For, ast.While)) is L_pr
+                        for st_e, _v in empt:
+                            okc_ = okc_ and (st_e in L_pr.orelse or (st_e in L_src.body and q.strictly_before(F, st_e, L_pr)))
+                        okc_ = okc_ and q.strictly_before(F, L_pr, ap) and q.in_block(ap, L_src.body)
+                        if okc_:
+                            comp = strip_cast(cdefs[0][1])
+                            ev_name = cv
+                            OUT = ('truthy', a0.id, '')
+                            defs = cdefs
             good = comp is not None and len(comp.generators) == 1 and isinstance(comp.generators[0].target, ast.Name) and \
                 q.unparse(comp.elt) == comp.generators[0].target.id and isinstance(strip_cast(comp.generators[0].iter), ast.Name) and strip_cast(comp.generators[0].iter).id == grp
             run.check(good, r, fi.short, '(d) the transitions selected are the enabled ones of the priority class', 'selection does not come from a filter of the priority class', ap)
@@ -273,8 +297,12 @@ def rules_selection(run):
             bad = q.table_equals(vs, sat, lambda v: not v.get('IGNORED', False) and (v.get('NOGUARD', False) or v.get('GUARDTRUE', False)))
             run.check(not bad and {'NOGUARD', 'GUARDTRUE', 'IGNORED'} <= set(vs), r, fi.short,
                       '(d) selected iff source not ignored and (no guard or guard true)', 'selection condition differs (atoms %s)' % vs, ap)
-            at = guard_atoms(ap, stop=L_pr)
-            run.check(at in ([FOUND], []), r, fi.short, '(d) every enabled transition of the class is selected', 'selection is conditional on %s' % at, ap)
+            if OUT is None:
+                at = guard_atoms(ap, stop=L_pr)
+                run.check(at in ([FOUND], []), r, fi.short, '(d) every enabled transition of the class is selected', 'selection is conditional on %s' % at, ap)
+            else:
+                at = [a for a in guard_atoms(ap, stop=L_src) if not (a[0] == 'not in' and a[1] == srcv and a[2] == ign)]
+                run.check(at in ([OUT], []), r, fi.short, '(d) every enabled transition of the class is selected', 'selection is conditional on %s' % at, ap)
             inner = []
     if FOUND is not None:
         flag = FOUND[1]
@@ -328,7 +356,12 @@ def rules_selection(run):
             return okk and 'anc' in kinds_
         for c in ign_adds:
             at = guard_atoms(c, stop=L_pr)
-            run.check(at == [FOUND] and q.in_block(c, L_pr.body), r, fi.short,
+            if OUT is not None and not q.in_node(c, L_pr):
+                at2 = [a for a in guard_atoms(c, stop=L_src) if not (a[0] == 'not in' and a[1] == srcv and a[2] == ign)]
+                good_place = at2 == [OUT] and q.in_block(c, L_src.body) and q.strictly_before(F, L_pr, q.enclosing_stmt(c))
+            else:
+                good_place = at == [FOUND] and q.in_block(c, L_pr.body)
+            run.check(good_place, r, fi.short,
                       '(c) ignore-set update under found: ' + q.unparse(c), 'the ignore set may only grow when the class selected something '
                       '(after guards are known)', c)
             a0 = strip_cast(c.args[0]) if c.args else None
@@ -445,6 +478,9 @@ def rules_groupby(run):
             recv = strip_cast(ap.func.value)
             good = isinstance(recv, ast.Subscript) and isinstance(strip_cast(recv.slice), ast.Call) and \
                 q.unparse(strip_cast(recv.slice)) == '%s(%s)' % (key, v)
+            if isinstance(recv, ast.Call) and isinstance(recv.func, ast.Attribute) and recv.func.attr == 'setdefault' and len(recv.args) == 2:
+                # groups.setdefault(key(item), []).append(item)
+                good = q.unparse(strip_cast(recv.args[0])) == '%s(%s)' % (key, v) and isinstance(recv.args[1], ast.List) and not recv.args[1].elts
             run.check(good, r, fi.short, 'group label is key(item)', 'the group must be selected by key(item)', ap)
     rets = [n for n in q.walk(F, False) if isinstance(n, ast.Return)]
     run.check(len(rets) == 1, r, fi.short, 'single return', 'expected a single return', F)
